@@ -8,6 +8,7 @@ from vlib.runner import SubProp, Violation
 from mir_eval import chord
 
 PROPERTY_ID = "C10"
+SCALE = (2, 1)   # budget multiplier (quick, thorough) applied to the n=(...) of every generated sub-property
 LEVEL = "exploration"
 RULE = ("enumerated: every label derivable from the documented grammar up to the tier's depth bound (roots x 27 shorthand choices x "
         "degree lists of length <= 2 (quick) / <= 3 (thorough) x 11 basses) x reduce_extended_chords x strict_bass_intervals, each "
